@@ -40,6 +40,8 @@ def tokens(x, strform="plain"):
         body = ["(", "PBASE", "(", str(i), ")", "PPA", "("] + ref(a) + [")", "PPB", "("] + ref(b) + [")", ")"]
     elif t in ("inode", "isubnode", "isubsub", "idl", "idr", "idia", "ione", "itwo"):
         body = [t.upper(), "(", str(i), ")"]
+    elif t == "imulti":      # attributes of iann first (note, extra), then those of iholder (items, other)
+        body = ["IMULTI", "(", "$", ","] + ref(b) + [","] + lst(a) + [","] + ref(b) + [")"]
     elif t == "irec":
         body = ["IREC", "(", str(i), ","] + ref(a) + [")"]
     elif t in ("iholder", "isub"):
